@@ -189,3 +189,25 @@ func H01hist() {
 	}
 	reach("returned")
 }
+
+// H01bytes: generic parsing of every byte string of n bytes over ALL 256 byte values (invalid
+// UTF-8 included): returns, with statements or an error, never a panic or a hang.
+func H01bytes() {
+	n := param("n")
+	b := make([]byte, n)
+	for i := range b {
+		b[i] = symByte()
+	}
+	ss, err := Parse(string(b), "f")
+	if err != nil {
+		reach("rejected")
+		check(len(ss) == 0, "on rejection no statements are returned")
+		return
+	}
+	reach("accepted")
+	for _, s := range ss {
+		_ = s.Location()
+		_ = s.Keyword
+	}
+}
+
